@@ -235,6 +235,11 @@ func (c *ShipConnection) setHandshakeTimer(timerType timeoutTimerType, duration 
 	stopChan := make(chan struct{})
 
 	c.handshakeTimerMux.Lock()
+	if c.handshakeTimerDisabled {
+		// the connection is closed
+		c.handshakeTimerMux.Unlock()
+		return
+	}
 	c.handshakeTimerStopChan = stopChan
 	c.handshakeTimerRunning = true
 	c.handshakeTimerType = timerType
@@ -269,6 +274,16 @@ func (c *ShipConnection) stopHandshakeTimer() {
 
 	close(c.handshakeTimerStopChan)
 	c.handshakeTimerRunning = false
+}
+
+// stop the handshake timer for good, used when the connection is closed
+// a message still being processed can not start it again
+func (c *ShipConnection) disableHandshakeTimer() {
+	c.handshakeTimerMux.Lock()
+	c.handshakeTimerDisabled = true
+	c.handshakeTimerMux.Unlock()
+
+	c.stopHandshakeTimer()
 }
 
 // mark the timer using the provided stop channel as expired
